@@ -111,6 +111,13 @@ class Serializable(object):  # pylint: disable=too-few-public-methods
         return result
 
     @staticmethod
+    def _get_ordered_set(set_value):
+        return sorted(
+            set_value,
+            key=lambda item: json.dumps(Serializable._json_traverse(item, Serializable._json_result))
+        )
+
+    @staticmethod
     def _json_result(obj):
         if isinstance(obj, enum.Enum):
             if isinstance(obj.value, CryptoDataParamsBase):
@@ -142,7 +149,12 @@ class Serializable(object):  # pylint: disable=too-few-public-methods
             ])
         elif hasattr(obj, '__dict__'):
             result = Serializable._json_traverse(obj.__dict__, result_func)
-        elif isinstance(obj, (list, tuple, frozenset, set)):
+        elif isinstance(obj, (frozenset, set)):
+            result = [
+                Serializable._json_traverse(item, result_func)
+                for item in Serializable._get_ordered_set(obj)
+            ]
+        elif isinstance(obj, (list, tuple)):
             result = [Serializable._json_traverse(item, result_func) for item in obj]
         else:
             result = result_func(obj)
@@ -205,6 +217,9 @@ class Serializable(object):  # pylint: disable=too-few-public-methods
     def _markdown_result_list(cls, obj, level=0):
         if not obj:
             return False, '-'
+
+        if isinstance(obj, (frozenset, set)):
+            obj = Serializable._get_ordered_set(obj)
 
         indent = Serializable._markdown_indent_from_level(level)
 
